@@ -6,6 +6,8 @@
 // Callees: resolve_fixture_for_file = //@stub available; get_available_fixtures = ASSUMED composition of the contracts
 // proved in units memo and available; parameter_has_annotation, str::lines (inlay hints), format! = uninterpreted.
 // find_parameter_ranges (since the repair of F-15c) reads the recorded usages: fully under contract, no string code.
+// Since the repairs of F-05c / F-05d: the item's definition is re-identified by the item's own line (item_def), and a
+// self-named dependency goes through //@stub resolver_core find_closest_definition_excluding (dep_target).
 // the handler files say `use tower_lsp_server::ls_types::*;` -- tower-lsp-server re-exports the crate ls_types
 use ls_types::*;
 // the handler code spells the scope type `crate::fixtures::types::FixtureScope`
@@ -58,6 +60,7 @@ impl FixtureDatabase {
     pub open spec fn avv(&self) -> AvV { AvV { defs: self.defs(), td: self.text_dom(), imp: imp_of(self.file_cache.m(), self.defs()) } }
 
 //@stub available resolve_fixture_for_file
+//@stub resolver_core find_closest_definition_excluding
 
     // ASSUMED composition of two proved contracts: unit memo proves get_available_fixtures(file) returns what
     // compute_available_fixtures(canonical(file)) returns, cache or not (abstractly: op_avail); unit available
@@ -138,15 +141,17 @@ impl Backend {
 @tags C05 C15 C11 C12
 @stripasync
 @ret r
-@closure find:1 |d: &&FixtureDefinition| -> (b: bool) ensures b == (pbv(&d.file_path) == pbv(&file_path))
+@closure find:1 |d: &&FixtureDefinition| -> (b: bool) ensures b == x_def_on_line(*d, pbv(&file_path), item_line)
+@closure find:2 |d: &&FixtureDefinition| -> (b: bool) ensures b == (pbv(&d.file_path) == pbv(&file_path))
 @closure unwrap_or_else:1 || -> (rv: Vec<Range>) ensures rv@ =~= seq![to_range]
+@wrapexpr_opt 1 `dep_name == &definition.name` => `Self::vp_is_own_name(dep_name, definition)` with fn vp_is_own_name(dep_name: &String, definition: &FixtureDefinition) -> (r: bool) ensures r == (dep_name@ == definition.name@)
 @wrapexpr 1 `SymbolKind::FUNCTION` => `Self::vp_sk_function_out()` with fn vp_sk_function_out() -> (r: SymbolKind) ensures r == sk_function()
 @wrapexpr 1 `format!( "@pytest.fixture{}", if dep_def.scope != crate::fixtures::types::FixtureScope::Function { format!("(scope=\"{}\")", dep_def.scope.as_str()) } else { String::new() } )` => `Self::vp_dep_detail_of(&dep_def)` with fn vp_dep_detail_of(dep_def: &FixtureDefinition) -> (r: String) ensures r@ == fixture_detail(dep_def.scope)
 @sig
     ensures
         r is Ok,
-        out_fits(self.nv(), params.item.name@, params.item.uri)
-            ==> opt_out_calls_view(r) == op_handle_outgoing(self.nv(), params.item.name@, params.item.uri),
+        out_fits(self.nv(), params.item.name@, params.item.uri, params.item.selection_range.start.line)
+            ==> opt_out_calls_view(r) == op_handle_outgoing(self.nv(), params.item.name@, params.item.uri, params.item.selection_range.start.line),
 @after defs 1
     let ghost v = self.nv();
     let ghost p = pbv(&file_path);
@@ -154,32 +159,32 @@ impl Backend {
     let ghost ds = dvs(dsx);
     let ghost same = p_same(p, fs_true());
     proof { assert(ds == bucket(v.defs, item.name@)); }
+@after item_line 1
+    let ghost pl = p_def_line(p, item_line as int);
+    proof { assert(item_line as int == item.selection_range.start.line as int + 1); }
+@replace 1 `Some(d) => d,` => `Some(d) => { proof { let s = dsx.as_ref(); let i = choose|i: int| 0 <= i < s.len() && s[i] == d && (forall|j: int| 0 <= j < i ==> !x_def_on_line(#[trigger] s[j], p, item_line)); assert forall|j: int| 0 <= j < i implies !pl(#[trigger] ds[j]) by { let y = s[j]; } assert(ds[i] == dv(d)); lemma_first_idx(ds, pl, i); assert(item_def(v, item.name@, item.uri, item.selection_range.start.line) == Some(dv(d))); } d },`
+@replace 2 `Some(d) => d,` => `Some(d) => { proof { let s = dsx.as_ref(); assert forall|j: int| 0 <= j < ds.len() implies !pl(#[trigger] ds[j]) by { let y = s[j]; } lemma_first_none(ds, pl); let i = choose|i: int| 0 <= i < s.len() && s[i] == d && (forall|j: int| 0 <= j < i ==> pbv(&(#[trigger] s[j]).file_path) != p); assert forall|j: int| 0 <= j < i implies !same(#[trigger] ds[j]) by { let y = s[j]; } assert(ds[i] == dv(d)); lemma_first_idx(ds, same, i); assert(item_def(v, item.name@, item.uri, item.selection_range.start.line) == Some(dv(d))); } d },`
 @return 3
     let s = dsx.as_ref();
+    assert forall|j: int| 0 <= j < ds.len() implies !pl(#[trigger] ds[j]) by { let y = s[j]; }
+    lemma_first_none(ds, pl);
     assert forall|j: int| 0 <= j < ds.len() implies !same(#[trigger] ds[j]) by { let y = s[j]; }
     lemma_first_none(ds, same);
 @after definition 1
-    proof {
-        let s = dsx.as_ref();
-        let i = choose|i: int| 0 <= i < s.len() && s[i] == definition && (forall|j: int| 0 <= j < i ==> pbv(&(#[trigger] s[j]).file_path) != p);
-        assert forall|j: int| 0 <= j < i implies !same(#[trigger] ds[j]) by { let y = s[j]; }
-        assert(ds[i] == dv(definition));
-        lemma_first_idx(ds, same, i);
-        assert(item_def(v, item.name@, item.uri) == Some(dv(definition)));
-    }
+    proof { assert(item_def(v, item.name@, item.uri, item.selection_range.start.line) == Some(dv(definition))); }
 @before for 1
     let ghost mut i: int = 0;
     let ghost depsx = definition.dependencies@;
     let ghost deps = strs_v(depsx);
     let ghost d = dv(definition);
-    let ghost fits = line_fits(d.line) && deps_fit(v, p, deps);
+    let ghost fits = line_fits(d.line) && deps_fit(v, p, d, deps);
     proof { assert(out_calls(v, p, d, deps.take(0)) =~= Seq::<OutCallV>::empty()); }
 @forloop 1 it
     proof { assert(deps.take(i) =~= deps); }
 @loop 1
     invariant 0 <= i <= depsx.len(), it.remaining() == depsx.as_ref().skip(i),
         v == self.nv(), p == pbv(&file_path), d == dv(definition), depsx == definition.dependencies@, deps == strs_v(depsx),
-        fits == (line_fits(d.line) && deps_fit(v, p, deps)),
+        fits == (line_fits(d.line) && deps_fit(v, p, d, deps)),
         fits ==> out_calls_v(outgoing_calls@) =~= out_calls(v, p, d, deps.take(i)),
     ensures fits ==> out_calls_v(outgoing_calls@) =~= out_calls(v, p, d, deps),
     decreases depsx.len() - i
@@ -199,7 +204,7 @@ impl Backend {
         assert(out_calls_v(outgoing_calls@) =~= out_calls_v(c0).push(out_call_v(c)));
         if fits {
             let dd = dv(&dep_def);
-            assert(dep_target(v, p, deps[i - 1]) == Some(dd));
+            assert(dep_target(v, p, d, deps[i - 1]) == Some(dd));
             assert(line_fits(dd.line));
             assert(to_range == def_name_range(dd));
             assert(item_v(c.to) == def_item(dep_uri, dd));
